@@ -51,6 +51,7 @@ def _work(args):
         from . import solve
         prog, reg = build()
         c = reg.contracts[target]
+        solve.FAILED[0] = 0
         ex = Engine(prog, reg)
         r = ex.verify(c)
         info = getattr(ex, 'cur_info', None)
@@ -73,6 +74,69 @@ def _work(args):
 
 
 _REPLAY_SEQ = {}
+
+
+def _child(conn, args):
+    try:
+        import resource
+        lim = int(os.environ.get('PYVC_MEM_LIMIT_MB', '6000')) * 1024 * 1024
+        resource.setrlimit(resource.RLIMIT_AS, (lim, lim))       # fail with MemoryError instead of being killed by the OOM killer
+    except Exception:
+        pass
+    try:
+        conn.send(_work(args))
+    except BaseException as e:
+        try:
+            conn.send({'target': args[0], 'status': 'crash', 'error': 'worker failed: %r' % (e,), 'obligations': [], 'paths': 0, 'covers': 0,
+                       'seconds': 0.0, 'externals': [], 'callee_contracts': [], 'inlined': [], 'dropped': [], 'assumptions': [], 'stats': {}, 'verify': True})
+        except Exception:
+            pass
+    finally:
+        conn.close()
+
+
+def _run_workers(targets, prop, tier, jobs):
+    """One forked process per function under contract, at most `jobs` at a time, each with a wall-clock budget.  A worker that dies
+    (out of memory) or exceeds its budget yields an `undecided` record for its function instead of hanging the check
+    (multiprocessing.Pool.map waits forever for a worker the OOM killer took)."""
+    ctx = multiprocessing.get_context('fork')
+    budget = float(os.environ.get('PYVC_FUNCTION_BUDGET_S', '2400' if tier == 'thorough' else '300'))
+    pending = list(targets)
+    running = {}
+    results = {}
+
+    def blank(t, status, error):
+        return {'target': t, 'status': status, 'error': error, 'obligations': [], 'paths': 0, 'covers': 0, 'seconds': 0.0, 'externals': [],
+                'callee_contracts': [], 'inlined': [], 'dropped': [], 'assumptions': [], 'stats': {}, 'verify': True, 'lost': True}
+    while pending or running:
+        while pending and len(running) < jobs:
+            t = pending.pop(0)
+            parent, child = ctx.Pipe(duplex=False)
+            p = ctx.Process(target=_child, args=(child, (t, prop, tier)))
+            p.start()
+            child.close()
+            running[t] = (p, parent, time.time())
+        time.sleep(0.05)
+        for t, (p, conn, t0) in list(running.items()):
+            got = None
+            try:
+                if conn.poll():
+                    got = conn.recv()
+            except (EOFError, OSError):
+                got = None
+            if got is not None:
+                results[t] = got
+                p.join(5)
+                del running[t]
+            elif not p.is_alive():
+                results[t] = blank(t, 'undecided', 'verification worker died without a result (exit code %s; out of memory?)' % p.exitcode)
+                del running[t]
+            elif time.time() - t0 > budget:
+                p.terminate()
+                p.join(5)
+                results[t] = blank(t, 'undecided', 'verification worker exceeded its wall-clock budget of %d s' % budget)
+                del running[t]
+    return [results[t] for t in targets]
 
 
 def _replay(ex, c, info, o, prop, rp):
@@ -111,7 +175,8 @@ def load_known(prop):
     if not os.path.exists(p):
         return []
     data = json.load(open(p))
-    return [k for k in data.get('known', []) if k.get('property') == prop]
+    # an entry belongs to its property; a clause that is also checked under another property (shared contract) lists it
+    return [k for k in data.get('known', []) if k.get('property') == prop or prop in k.get('also_reported_under', [])]
 
 
 def load_baseline(prop):
@@ -150,8 +215,7 @@ def check_property(prop, tier='quick', seed=0, jobs=None, update_baseline=False)
     if not targets:
         results = []
     elif jobs > 1:
-        with multiprocessing.get_context('fork').Pool(jobs) as pool:
-            results = pool.map(_work, [(t, prop, tier) for t in targets], chunksize=1)
+        results = _run_workers(targets, prop, tier, jobs)
     else:
         results = [_work((t, prop, tier)) for t in targets]
 
@@ -180,7 +244,19 @@ def check_property(prop, tier='quick', seed=0, jobs=None, update_baseline=False)
         if r['status'] == 'crash':
             crashes.append('%s: %s' % (r['target'], r['error']))
         elif r['status'] == 'undecided':
-            undecided.append('%s: %s' % (r['target'], r['error']))
+            lost = [n for n in baseline if n.startswith(r['target'] + '/')] if r.get('lost') else []
+            if lost:
+                # the worker of a function whose clauses are all recorded as proved on the pinned tree ran out of time or
+                # memory on this tree: its obligations are no longer discharged (reported without an input, reason attached)
+                safe = re.sub(r'[^A-Za-z0-9_.-]+', '_', r['target'])[:150]
+                path = os.path.join(VERIF, 'replays', '%s-%s-not-verified.py' % (prop, safe))
+                os.makedirs(os.path.dirname(path), exist_ok=True)
+                with open(path, 'w') as f:
+                    f.write('#!/usr/bin/env python3\n"""%s: the %d obligations of %s, proved on the pinned tree, are not discharged on this tree:\n%s\n'
+                            'no-failing-input-found\n"""\nimport sys\nprint(__doc__)\nsys.exit(2)\n' % (prop, len(lost), r['target'], r['error']))
+                violations.append((r['target'], path, False, {'note': '%d obligations proved on the pinned tree are not discharged: %s' % (len(lost), r['error'])}))
+            else:
+                undecided.append('%s: %s' % (r['target'], r['error']))
     for name, cl in sorted(clauses.items()):
         if cl['verdict'] == 'proved':
             continue
